@@ -344,10 +344,10 @@ def cfdp_inputs(kind, cfg, p, direction=None, conf=None):
 
 RESP_A = dict(U.RESP_TWO_NAMES_MSG)
 RESP_B = dict(U.RESP_ONE_NAME)
-RESP_C = dict(U.RESP_ONE_NAME_MSG)
+RESP_C = dict(U.RESP_REPLACE)  # thorough menus: the third two-name action
 OPT_A = {"t": "flow", "v": b"xy"}
 OPT_B = {"t": "msg", "v": b"hello"}
-OPT_C = {"t": "fsreq", "action": 2, "first": "a", "second": "b"}
+OPT_C = {"t": "fsreq", "action": 4, "first": "a", "second": "b"}  # replace: the third two-name action
 NAME255 = "n" * 255
 NAME255_UTF8 = "ä" * 127 + "z"  # 128 characters, 255 octets
 WIDTHS_Q = [(1, 1), (2, 4)]
